@@ -108,6 +108,9 @@ private:
 
   RLBOX_SHARED_LOCK(func_ptr_cache_lock);
   std::map<std::string, void*> func_ptr_map;
+  // Symbols resolved via impl_internal_lookup_symbol are cached separately as
+  // they may differ from the ones resolved via impl_lookup_symbol
+  std::map<std::string, void*> internal_func_ptr_map;
 
   app_pointer_map<typename T_Sbx::T_PointerType> app_ptr_map;
 
@@ -715,8 +718,8 @@ public:
     {
       RLBOX_ACQUIRE_SHARED_GUARD(lock, func_ptr_cache_lock);
 
-      auto func_ptr_ref = func_ptr_map.find(func_name);
-      if (func_ptr_ref != func_ptr_map.end()) {
+      auto func_ptr_ref = internal_func_ptr_map.find(func_name);
+      if (func_ptr_ref != internal_func_ptr_map.end()) {
         return func_ptr_ref->second;
       }
     }
@@ -729,7 +732,7 @@ public:
       func_ptr = this->impl_lookup_symbol(func_name);
     }
     RLBOX_ACQUIRE_UNIQUE_GUARD(lock, func_ptr_cache_lock);
-    func_ptr_map[func_name] = func_ptr;
+    internal_func_ptr_map[func_name] = func_ptr;
     return func_ptr;
   }
 
